@@ -15,7 +15,8 @@ MANIFEST = dict(
           "(Proofs/C13U*.v, C13C*.v: relations preserved by each of the 48 transformer callbacks, the comments transformer re-entering the main one, comment assignment, the tree builder with propagate_positions and the lexer's comment recording; "
           "the parser returns trees of the same shape and the same errors in both comment modes). The one-sided form for positions holds when the plain result has no key spelled __position__ and is REFUTED otherwise (known finding, same on the real loads); "
           "positions on<->off acceptance is aligned for every text (the tree-shape guard is discharged by the grammar-conformance theorem of the LR driver; stated for comments off); comments on->off acceptance holds for every text, off->on is REFUTED "
-          "(an entry spelled __comments__ makes the comments run raise: known finding) and not proved under a guard (PARTIAL). "
+          "(an entry spelled __comments__ makes the comments run raise: known finding) and PROVED for every text under the guard KEYGUARD - no pair of a VALUES / METADATA / VALIDATION / CONNECTIONOPTIONS block has a key that, "
+          "unquoted and lower-cased, is __comments__ (Proofs/C13C_Conv.v: totality of the comments transformer and callback on parser-shaped trees); under that guard the two comment modes accept exactly the same texts. "
           "[finite] for every document of the schema-generated slot product (about 2500 documents, regenerated from the schemas on every run) all four loads agree and succeed together, evaluated by the kernel. "
           "The model is tied to the code by running the extracted model and the real loads under all four flag combinations on the corpus and on generated documents with random # and /* */ comments. "
           "The hunter states the property against the real API through loads, open and load, checks the printer clauses, and probes entries whose key is spelled like a bookkeeping key."),
